@@ -73,6 +73,12 @@ ASSUMPTIONS = [
     "instance attributes (self.x = ... in __init__) are declared members of their class in Griffe's model; that they are also *inherited* contradicts the property text "
     "(CPython's lookup through the MRO never finds them): known finding 'inherited-instance-attributes'; while it is listed, generated instance attributes only "
     "occur in classes nobody derives from",
+    "package cases now and then list the same class twice among the bases of a class, each occurrence reached its own way (direct name, import, re-export): CPython's "
+    "type.mro() refuses ('duplicate base class'), so the class and its descendants are expected to be uncomputable (the repository's own test pins B(A, A)); a repetition is "
+    "never written subscripted next to the plain class under typing.Generic (typing's __mro_entries__ makes `class C(A[int], A)` one base)",
+    "classes are nested up to 2 levels deep; a class statement only names classes that exist when CPython evaluates it: classes of the same body (bare name) or classes of an "
+    "earlier, finished module-level tree (dotted path from module level); a nested class may repeat the name of a class that encloses it (class Node: class Meta: class Node), "
+    "never the name of a class it could be confused with in valid Python (names are unique per body; module-level names unique per module)",
     "classes defined in a class body are numbered before their host (the order in which CPython finishes the class statements); a host never derives from a class of "
     "its own body and a nested class never from its host (no statement order makes that valid Python); the abstract oracle creates every class from a flat statement "
     "and attaches nested classes to their host afterwards - the real import of the generated files (same text Griffe reads) must agree, else harness error",
@@ -212,7 +218,9 @@ def _import_pkg(case, root: Path) -> list[list[str]]:
         for i, m in enumerate(case["mods"]):
             mod = importlib.import_module(H.mod_path(case, m))
             cn = H.cls_name
-            cls = getattr(mod, cn(case, i)) if host[i] is None else getattr(getattr(mod, cn(case, host[i])), cn(case, i))
+            cls = mod
+            for x in H.chain(host, i):
+                cls = getattr(cls, cn(case, x))
             out.append([f"{c.__module__}.{c.__qualname__}" for c in cls.__mro__[1:] if c.__module__.split(".")[0] in tops])
         return out
     finally:
